@@ -61,3 +61,10 @@ GROUPS += [
           flags=["--no-malloc-may-fail"], must_fail=["reach_end", "reach_reshaped_with_old_norms"], functions=["grab_basis", "ILLlp_basis_free", "ILLlp_basis_init"],
           props=["C17", "C18", "C12"], assumed=["life/grab_basis: static grab_basis called through goto-cc --export-file-local-symbols; ILLlib_getbasis (decided in lib/getbasis) and ILLlib_getrownorms are arbitrary-result stubs; GMP model variant TOKENS"]),
 ]
+
+GROUPS += [
+    Group("life/grab_cache", "qs_grab_cache.c", tus=["qsopt_mpq.c", "lpdata_mpq.c", "allocrus.c", "eg_lpnum.c"], model=MODEL, defines=TOK, dfcc=False, unwind=5, kind="bounded", leak=True, timeout=900,
+          bound="problem of 1 column and 2 rows; stored solution absent, of the same shape or of the transposed shape; loops completely unwound",
+          flags=["--no-malloc-may-fail"], must_fail=["reach_end", "reach_reshaped", "reach_failed_with_old_cache"], functions=["QSgrab_cache", "ILLlp_cache_init", "ILLlp_cache_alloc", "ILLlp_cache_free"],
+          props=["C05", "C18", "C17"], assumed=["life/grab_cache: ILLlib_cache_solution is an arbitrary-result stub; GMP model variant TOKENS"]),
+]
